@@ -81,7 +81,7 @@ def run(prop, tier, seed, replay=None):
     counts = flow.decide(V, res, known=report.findings_for(prop))
     # generated theorems that no longer check: reported after the search (the correspondence run above is the search:
     # a changed body that computes a wrong value shows up there as impl_* with a replay; what is left is reported as thm_*)
-    found_input = counts.get("SPEC", 0) + counts.get("BOTH", 0) if isinstance(counts, dict) else 0
+    found_input = any("impl_" in os.path.basename(str(p_)) for p_, nf_ in V.violations if not nf_)
     for n, msg in sorted(gen_failing.items()):
         V.violation("thm_%s" % n, {"obligation": "Givaro.GenQ.%s (Generated/RationalThms.lean): the body regenerated from the sources equals the hand model "
                                                  "of Model/Rational.lean for all inputs" % n,
